@@ -781,6 +781,13 @@ func (e *Engine) callContract(c *Contract, fn *types.Func, recvName string, recv
 	// requires
 	for j, cl := range c.byKind("requires", "") {
 		t := term(e.evalSpec(cl.Expr, mkEnv(st, nil)))
+		if e.fi != nil && e.fi.Contract != nil && e.fi.Contract.Attrs["callrequires"] == "assumed" {
+			// a program entry point (cmd/*/main): what the callee requires of values that come from the command line
+			// is taken for granted here and listed as an assumption (the program does not validate its flags)
+			e.notes["ASSUMED at "+where+": precondition of "+callee+" ("+cl.Text+") on values taken from the command line"] = true
+			st.assume(t)
+			continue
+		}
 		e.assert(st, t, fmt.Sprintf("call:%s/requires#%d", callee, j), where+" <- "+cl.Where, nil)
 	}
 	// ownership: stream arguments are handed over
@@ -858,6 +865,28 @@ func (e *Engine) callContract(c *Contract, fn *types.Func, recvName string, recv
 			}
 			if !ok {
 				unsup("modifies %s: unknown name in contract %s", n, callee)
+			}
+			if vt, isRef := v.(VTerm); !(isRef && vt.T.Sort == SRef) {
+				// a single field (modifies c.columns): the caller must be allowed to write it; only it is havoced
+				if i := strings.LastIndex(n, "."); i > 0 {
+					if bx, err := parseSpec(n[:i]); err == nil {
+						var bv Value
+						if nv, ok := names[n[:i]]; ok {
+							bv = nv
+						} else {
+							bv = e.evalSpec(bx, mkEnv(st, nil))
+						}
+						if bt, ok := bv.(VTerm); ok && bt.T.Sort == SRef {
+							rs := bt.T.String()
+							fld := n[i+1:]
+							if !e.localRefs[rs] && !e.modifiesOK[rs] && !e.modifiesFld[rs+"."+fld] {
+								e.staticObl("frame/call-modifies", where, false, callee+" modifies "+rs+"."+fld+" which the caller may not modify", nil)
+							}
+							e.havocField(st, bt, fld)
+						}
+					}
+				}
+				continue
 			}
 			if vt, ok := v.(VTerm); ok && vt.T.Sort == SRef {
 				if _, isIface := vt.Typ.Underlying().(*types.Interface); isIface || strings.HasPrefix(c.Key, "interface ") {
